@@ -28,6 +28,8 @@ func init() {
 }
 
 func runC06(w *World, r *Report) {
+	hrQueueSizeParams(w, r, "R8")
+	hrEnvOfItsOwn(w, r, "R8")
 	hrTimeoutAboveTTL(w, r, "R8")
 	hrScoreIsPriority(w, r, "R5")
 	hrAddRequestCountsFirst(w, r, "R3")
